@@ -124,6 +124,8 @@ type Prop struct {
 	Bound func(tier string) string
 	// Setup runs once per worker before any case.
 	Setup func(tier string)
+	// Teardown runs once per worker after the last case.
+	Teardown func()
 	// Post may add coordinator-level results after the merge.
 	Post func(tier string, merged *Rec)
 }
